@@ -13,6 +13,22 @@ COMMON_NOTE = ("Trusted: Coq 8.16.1 kernel incl. vm_compute (no native_compute, 
 T = "Coq proof ({how}) + in-Coq differential correspondence"
 
 CHECKS = {
+    "C07": dict(
+        text="PARTIAL BY CONSTRUCTION (tarfile and the gz/bz2/xz/lzma codecs are CPython's and are not modelled; they are "
+             "exercised by the harness on every run: all 25 compression pairs, member orders, names with spaces, binary "
+             "contents, script subsets, the full defective matrix).  What is logic is modelled and proved (Props/C07.v, 20 "
+             "theorems, all Closed under the global context), with the constants regenerated from debfile.py "
+             "(Gen/DebConsts.v): DebFile opens iff debian-binary is present and exactly one control and exactly one data "
+             "candidate name occur, any failure is DebError and never another kind; lookups find the last member of a name; "
+             "has_file/get_content answer identically for 'n', './n', '/n'; md5sums() round-trips any list of well-formed "
+             "lines incl. names with inner spaces; scripts() is exactly the MAINT_SCRIPTS present; and, under ONE Section "
+             "hypothesis (tarfile.open('r:*') of an archived listing returns it), for any members, any of the 25 codec pairs "
+             "and any member order everything returned equals what was packed.",
+        design="§4 C07",
+        note=COMMON_NOTE + "Assumed (Section variable/hypothesis, never an axiom): p_open (arch k v) = Some v — the tar/codec "
+             "round trip.  Modelled not verified: os.path.splitext gate proved for the ten candidate names (complete sweep), "
+             "Deb822 parsing of the control file is C02's, links/devices in tarballs not modelled.",
+        technique=T.format(how="decision-logic iff + round-trip lemmas; runtime parts as Section hypotheses")),
     "C08": dict(
         text="Theorems (Props/C08.v, 13, all Closed under the global context), about Deb822/Model.v's own validate_input, "
              "setitem, dump, iter_paragraphs and regex leaves, over the property's character domain: for every paragraph with "
